@@ -463,6 +463,22 @@ fn main() {
             a(6).parse().unwrap_or(0),
         ),
         "replay" => replay(a(2)),
+        "lex" => {
+            // debugging aid: how a line lists and parses
+            let l = basic::lang::Line::new(a(2));
+            println!("listed: {:?}", l.to_string());
+            println!("ast: {:?}", l.ast());
+            0
+        }
+        "session" => {
+            // debugging aid: enter the given lines into a fresh interpreter
+            let mut s = driver::Session::with(5000, 200);
+            for l in &args[2..] {
+                s.enter(l);
+                println!("> {}\n{}", l, driver::render(&s.take()));
+            }
+            0
+        }
         "list" => {
             for id in checks::ids() {
                 println!("{}", id);
